@@ -20,7 +20,7 @@ class Anomaly(dict):
 
 def kinds_of(p, n):
     t = p.targets.get(n, {})
-    ks = [k for k in ('stamp', 'always', 'head', 'phony', 'dyn', 'split', 'alias') if t.get(k)]
+    ks = [k for k in ('stamp', 'always', 'head', 'phony', 'dyn', 'split', 'alias', 'linkout') if t.get(k)]
     if t.get('flag') is not None:
         ks.append('flag')
     if t.get('watch'):
